@@ -112,6 +112,9 @@ fn run_check(id: &str, tier: &str) -> i32 {
         "C03" => props::c03::run_c03(&rep),
         "C04" => props::c04::run_c04(&rep),
         "C09" => props::c09::run_c09(&rep),
+        "C14" => props::c14::run(&rep, "C14"),
+        "C15" => props::c14::run(&rep, "C15"),
+        "C16" => props::c16::run_c16(&rep),
         "C28" => props::c28::run_c28(&rep),
         _ => {
             eprintln!("no check for {}", id);
